@@ -13,14 +13,18 @@ import Gonuts.Lemmas.WireWitness
   refuted by a concrete witness (`…_full_false`), next to the theorem that does hold with its exact extra
   hypothesis.  These are the cases:
 
-  * `refused_shape_full`     — a refusal is `{detail, code}`: false (a non-cashu `error` is rendered `{}`:
-                               `MintTokens`' failing "restore previous state" write);
+  * `refused_shape_full`     — (handler mapping only) a refusal is `{detail, code}`: false for a non-cashu `error`, which
+                               `writeErr` renders `{}`.  The one operation that produced such an error — `MintTokens`'
+                               failing "restore previous state" write — was repaired by fix 1c07e11; its witness is kept
+                               as a regression example that now shows the constant `StandardErr` body;
   * `internal_generic_full`  — storage failures are answered with the constant `StandardErr`: false (a failing
                                quote lookup is answered "quote does not exist", code 20009);
   * `code_of_cause_full`     — duplicate inputs are answered 11007: false (same secret with another witness
                                passes the struct-equality check and is refused by the storage key: 10000);
-  * `cache_exact_full`       — only a byte-identical (method, URL, body) is served from the cache: false
-                               (the key is the concatenation without separators).
+
+  Repaired: `cache_exact_full` — equal keys only for identical (method, URL, body) — was false while the key was the plain
+  concatenation; since fix 65f9524 (NUL separators) it is a theorem (`cache_exact_full`, `cache_exact_triple`), and the old
+  witness is a regression example.
 -/
 namespace Gonuts.Props.C20
 open Gonuts.Model.Mint Gonuts.Model.Wire Gonuts.Model.Wire.Witness Gonuts.Spec
@@ -161,11 +165,13 @@ theorem early_refusals :
     (∀ e ∈ [eCtype, eBadJson, eTypeErr, eEmptyBody, eDecodeOther], e.1 = 10000 ∧ (errTree e).keys = NutWire.errorFields) ∧
     eMethod.1 = 11003 ∧ (errTree eMethod).keys = NutWire.errorFields := by decide
 
-/-- The full statement — *every* refusal has the `{detail, code}` shape — … -/
+/-- The full statement about the handlers' error mapping — *every* error a handler passes to `writeErr` has the
+    `{detail, code}` shape — … -/
 def refused_shape_full : Prop := ∀ (h : Handler) (e : E), (errTree (mapErr h e)).keys = NutWire.errorFields
 
 /-- … is false: a Go `error` that is not a `*cashu.Error` (code 0 in the model) is handed to `writeErr` unchanged
-    by every handler that type-asserts `err.(*cashu.Error)`, and `json.Marshal` renders it `{}`. -/
+    by every handler that type-asserts `err.(*cashu.Error)`, and `json.Marshal` renders it `{}`.  Latent since fix 1c07e11:
+    no operation behind an HTTP handler is known to return such an error any more (not proved here). -/
 theorem refused_shape_full_false : ¬ refused_shape_full := by
   intro h
   have := h .mintTokensRequest (0, "raw")
@@ -181,11 +187,12 @@ theorem refused_shape_constant_handlers (e : E) :
   · show (errTree eStandard).keys = _; decide
   · show (errTree eUnknownKeyset).keys = _; decide
 
-/-! Witness that the `{}` body is reachable: a paid quote, a mint request refused after the PENDING write
-    (outputs above the quote amount), and a storage fault at the fourth storage call (GetMintQuote, UpdateMintQuoteState PAID, UpdateMintQuoteState
-    PENDING, then) — the "restore previous state" write.  The quote is left PENDING (the stranding recorded under C07). -/
+/-! Regression (was: witness of the `{}` body): a paid quote, a mint request refused after the PENDING write (outputs
+    above the quote amount), and a storage fault at the fourth storage call (GetMintQuote, UpdateMintQuoteState PAID,
+    UpdateMintQuoteState PENDING, then) — the "restore previous state" write.  Since fix 1c07e11 the failure is wrapped as
+    a DB error and the client receives the constant body.  The quote is still left PENDING (the stranding recorded under C07). -/
 section RawWitness
-example : (handle sPaid rMintOver).2 = ⟨400, "{}"⟩ := by decide
+example : (handle sPaid rMintOver).2 = ⟨400, stdBody⟩ := by decide
 example : ((handle sPaid rMintOver).1.mint.w.db.mintQ.map (·.state)) = [.pending] := by decide
 end RawWitness
 
@@ -362,8 +369,8 @@ theorem internal_generic_full_false : ¬ internal_generic_full := by
     which contains `/`; a `{id}` path segment cannot contain `/`, the `ACTIVE_KEYSET` constant has none.
     For ALL strings. -/
 theorem no_collision (method url body id : String) (hurl : '/' ∈ url.toList) (hid : '/' ∉ id.toList) :
-    method ++ url ++ body ≠ id ∧ method ++ url ++ body ≠ activeKeysetKey := by
-  have hk : '/' ∈ (method ++ url ++ body).toList := by simp [String.toList_append, hurl]
+    method ++ keySep ++ url ++ keySep ++ body ≠ id ∧ method ++ keySep ++ url ++ keySep ++ body ≠ activeKeysetKey := by
+  have hk : '/' ∈ (method ++ keySep ++ url ++ keySep ++ body).toList := by simp [String.toList_append, hurl]
   exact ⟨ne_of_slash hk hid, ne_of_slash hk activeKey_no_slash⟩
 
 /-- The `{id}` a routed request carries is a path segment, hence without `/` for a well-formed request. -/
@@ -457,37 +464,47 @@ theorem cache_exact (s0 : WSess) (hs : s0.cache = []) (evs : List Event) (hwf : 
     obtain ⟨ha, hb, _, _⟩ := h2 v e hl
     exact ⟨hinv.prov _ v e hl hslash, ha, hb⟩
 
-/-- "Identical key" is "identical (method, URL incl. query, body)" when the two URLs have the same length — in particular
-    when neither carries a query string (the path of a cached route is fixed). -/
-theorem key_eq_iff (r₁ r₂ : Request) (hm : r₁.method = r₂.method) (hl : r₁.url.length = r₂.url.length) :
-    r₁.key = r₂.key ↔ (r₁.url = r₂.url ∧ r₁.body = r₂.body) := by
+/-- "Identical key" is "identical (method, URL incl. query, body)": the parts are separated by NUL bytes, which neither a
+    method nor a URL can contain (fix 65f9524). -/
+theorem key_eq_iff (r₁ r₂ : Request) (h₁ : NoNul r₁) (h₂ : NoNul r₂) :
+    r₁.key = r₂.key ↔ (r₁.method = r₂.method ∧ r₁.url = r₂.url ∧ r₁.body = r₂.body) := by
   constructor
-  · intro h
-    unfold Request.key at h
-    rw [hm] at h
-    exact key_split h hl
-  · rintro ⟨hu, hb⟩
+  · exact key_inj h₁ h₂
+  · rintro ⟨hm, hu, hb⟩
     unfold Request.key
     rw [hm, hu, hb]
 
-/-- The full statement — equal keys only for byte-identical (method, URL, body) — … -/
-def cache_exact_full : Prop :=
-  ∀ r₁ r₂ : Request, r₁.key = r₂.key → r₁.method = r₂.method ∧ r₁.url = r₂.url ∧ r₁.body = r₂.body
+/-- The full statement — equal keys only for byte-identical (method, URL, body) — holds since fix 65f9524. -/
+theorem cache_exact_full (r₁ r₂ : Request) (h₁ : NoNul r₁) (h₂ : NoNul r₂) (h : r₁.key = r₂.key) :
+    r₁.method = r₂.method ∧ r₁.url = r₂.url ∧ r₁.body = r₂.body := key_inj h₁ h₂ h
 
-/-- … is false: the key is a plain concatenation.  `POST /v1/swap?x` with body `{A}null` (the decoder reads the first
-    value, `{A}`) and `POST /v1/swap?x{A}` with body `null` have the same key. -/
-theorem cache_exact_full_false : ¬ cache_exact_full := by
-  intro h
-  have := h { method := "POST", segs := ["v1", "swap"], url := "/v1/swap?x", body := "{A}null" }
-            { method := "POST", segs := ["v1", "swap"], url := "/v1/swap?x{A}", body := "null" } (by decide)
-  revert this; decide
+/-- `cache_exact` in terms of the request itself: in a history from a fresh server whose requests carry no NUL byte in
+    method or URL, a request served from the cache has the byte-identical (method, URL incl. query, body) of an earlier
+    request of that history that was executed and answered 200 with exactly the bytes now served. -/
+theorem cache_exact_triple (s0 : WSess) (hs : s0.cache = []) (evs : List Event) (hwf : EventsWF evs)
+    (hnn : ∀ r', Event.req r' ∈ evs → NoNul r')
+    {r : Request} (hrwf : ReqWF r) (hrn : NoNul r) {h : Handler} {p : Parsed} {op : Op} (hr : Reaches r h p op)
+    (hc : isCached h = true) (k : String) (hhit : (handleX (runLog s0 evs).1 r).2.2 = .hit k) :
+    ∃ r', Event.req r' ∈ evs ∧ r'.method = r.method ∧ r'.url = r.url ∧ r'.body = r.body ∧
+      ∃ x ∈ (runLog s0 evs).2, x.req = r' ∧ x.resp = (handle (runLog s0 evs).1 r).2 ∧ x.resp.status = 200 := by
+  obtain ⟨h1, h2⟩ := cache_exact s0 hs evs hwf hrwf hr hc
+  obtain ⟨v, e, hl, hst⟩ := h1.mp ⟨k, hhit⟩
+  obtain ⟨x, hx, hkey, hresp, _⟩ := hst
+  have hmem := runLog_mem hx
+  obtain ⟨hm, hu, hb⟩ := key_inj (hnn _ hmem) hrn hkey
+  refine ⟨x.req, hmem, hm, hu, hb, x, hx, rfl, ?_, ?_⟩
+  · rw [hresp, (h2 v e hl).2.1]
+  · rw [hresp]
 
-/-! End-to-end witness of that ambiguity: the second request — another URL, the body `null` (a swap without inputs,
-    which on its own is refused) — is answered 200 with the signatures of the first. -/
+/-! Regression (was: the witness of the key ambiguity).  `POST /v1/swap?x` with body `{A}null` and `POST /v1/swap?x{A}`
+    with body `null` had the same concatenated key; with separators the keys differ, and the second request — a swap
+    without inputs — is executed and refused instead of being answered with the first one's signatures. -/
 section AmbiguityWitness
+example : rFirst.key ≠ rSecond.key := by decide
 example : (handle sFresh rFirst).2.status = 200 := by decide
 example : (handle sFresh rSecond).2.status = 400 := by decide
-example : (handle (handle sFresh rFirst).1 rSecond).2 = (handle sFresh rFirst).2 := by decide
+example : (handle (handle sFresh rFirst).1 rSecond).2 = (handle sFresh rSecond).2 := by decide
+example : NoNul rFirst ∧ NoNul rSecond := ⟨⟨by decide, by decide⟩, ⟨by decide, by decide⟩⟩
 end AmbiguityWitness
 
 /-- **Replay within retention.** Once a request has been executed and its response stored (entry `(v, exp)` under its
